@@ -102,14 +102,14 @@ pub fn run(em: &mut Emitter, rng: &mut Rng, thorough: bool) {
 
 // ---------------- C07 Level A: raw operation scripts, request counts ----------------
 #[derive(Clone, Debug)]
-enum Aop { TakeU8, TakeOpt, Skip(usize), TakeAll, SkipAll, SetLim(Option<usize>), Request(usize), Tag }
+enum Aop { TakeU8, TakeOpt, Skip(usize), TakeAll, SkipAll, SetLim(Option<usize>), Request(usize), Tag, Exhausted }
 
 fn enc_aops(ops: &[Aop]) -> Vec<i128> {
     let mut v = Vec::new();
     for o in ops { match o {
         Aop::TakeU8 => v.push(0), Aop::TakeOpt => v.push(1), Aop::Skip(n) => { v.push(2); v.push(*n as i128) }
         Aop::TakeAll => v.push(3), Aop::SkipAll => v.push(4), Aop::SetLim(Some(n)) => { v.push(5); v.push(*n as i128) }
-        Aop::SetLim(None) => v.push(6), Aop::Request(n) => { v.push(7); v.push(*n as i128) } Aop::Tag => v.push(8),
+        Aop::SetLim(None) => v.push(6), Aop::Request(n) => { v.push(7); v.push(*n as i128) } Aop::Tag => v.push(8), Aop::Exhausted => v.push(9),
     } }
     v
 }
@@ -126,6 +126,7 @@ fn run_aops<S: Source>(ops: &[Aop], src: &mut bcder::decode::LimitedSource<S>) -
             Aop::SkipAll => src.skip_all().map(|_| vec![0]).map_err(|e| is_source_err(&e)),
             Aop::SetLim(l) => { src.set_limit(*l); Ok(vec![]) }
             Aop::Request(n) => src.request(*n).map(|g| vec![g as i128]).map_err(|_| true),
+            Aop::Exhausted => src.exhausted().map(|_| vec![0]).map_err(|e| is_source_err(&e)),
             Aop::Tag => Tag::take_opt_from(src).map(|o| match o {
                 Some((t, c)) => { let mut buf = Vec::new(); t.write_encoded(false, &mut buf).unwrap(); buf.resize(4, 0); let mut v = vec![1]; v.extend(buf.iter().map(|x| *x as i128)); v.push(c as i128); v }
                 None => vec![0] }).map_err(|e| is_source_err(&e)),
@@ -145,13 +146,14 @@ pub fn run_grants(em: &mut Emitter, rng: &mut Rng, thorough: bool) {
         let mut ops = Vec::new();
         if rng.chance(3, 4) { ops.push(Aop::SetLim(Some(rng.below(n as u64 + 3) as usize))); }
         for _ in 0..nops {
-            ops.push(match rng.below(10) {
+            ops.push(match rng.below(11) {
+                10 => Aop::Exhausted,
                 0 => Aop::TakeU8, 1 => Aop::TakeOpt, 2 => Aop::Skip(rng.below(5) as usize),
                 3 => Aop::TakeAll, 4 => Aop::SkipAll,
                 5 | 6 => Aop::SetLim(Some(rng.below(n as u64 + 3) as usize)),
                 7 => Aop::Request(rng.below(n as u64 + 3) as usize),
                 8 => Aop::Tag,
-                _ => if rng.chance(1, 3) { Aop::SetLim(None) } else { Aop::Tag },
+                _ => if rng.chance(1, 2) { Aop::SetLim(None) } else { Aop::Tag },
             });
         }
         let kind = rng.below(4) as u8; let param = rng.range(1, 5);
@@ -220,7 +222,69 @@ fn fault_cases(em: &mut Emitter, mode: u8, ps: &[Prog], data: &[u8], policy: Pol
     }
 }
 
+/// 802: the typed value readers of the crate (strings, identifiers, arbitrary-size integers - the
+/// routines the program language does not cover) on a source failing at request k, for every k.
+fn typed_reader_faults(em: &mut Emitter, which: u8, mode: u8, data: &[u8], policy: Policy) {
+    use bcder::{BitString, Ia5String, Integer, NumericString, OctetString, Oid, PrintableString, Unsigned, Utf8String};
+    fn go<'a>(which: u8, mode: u8, src: &mut FlexSource<'a>) -> Result<(), bcder::decode::DecodeError<TestErr>> {
+        let m = mode_of(mode);
+        match which {
+            0 => Constructed::decode(src, m, |c| OctetString::take_from(c).map(|_| ())),
+            1 => Constructed::decode(src, m, |c| BitString::take_from(c).map(|_| ())),
+            2 => Constructed::decode(src, m, |c| Utf8String::take_from(c).map(|_| ())),
+            3 => Constructed::decode(src, m, |c| PrintableString::take_from(c).map(|_| ())),
+            4 => Constructed::decode(src, m, |c| Ia5String::take_from(c).map(|_| ())),
+            5 => Constructed::decode(src, m, |c| NumericString::take_from(c).map(|_| ())),
+            6 => Constructed::decode(src, m, |c| Oid::take_from(c).map(|_| ())),
+            7 => Constructed::decode(src, m, |c| Integer::take_from(c).map(|_| ())),
+            8 => Constructed::decode(src, m, |c| Unsigned::take_from(c).map(|_| ())),
+            9 => Constructed::decode(src, m, |c| BitString::skip_in(c)),
+            10 => Constructed::decode(src, m, |c| Oid::skip_in(c)),
+            11 => Constructed::decode(src, m, |c| OctetString::take_opt_from(c).map(|_| ())),
+            12 => Constructed::decode(src, m, |c| c.capture_all().map(|_| ())),
+            _ => Constructed::decode(src, m, |c| { let os = OctetString::take_from(c)?; let _ = os.len(); Ok(()) }),
+        }
+    }
+    let outcome = |r: &Result<(), bcder::decode::DecodeError<TestErr>>| -> (u8, Option<String>) { match r {
+        Ok(()) => (0, None), Err(e) => if is_source_err(e) { (2, Some(format!("{}", e))) } else { (1, None) } } };
+    let (n, clean) = { let mut s = FlexSource::new(data, policy, None); let r = go(which, mode, &mut s); (s.reqs, outcome(&r).0) };
+    for k in 1..=(n + 1) {
+        let data2 = data.to_vec();
+        em.case(802, &[num_arg(which), num_arg(mode), bytes_arg(&data[..data.len().min(40)]), num_arg(data.len()), num_arg(k)], move || {
+            let r = catch(|| { let mut s = FlexSource::new(&data2, policy, Some(k)); let r = go(which, mode, &mut s); outcome(&r) });
+            let orc = match r {
+                None => Oracle::Fail("panic-on-source-failure".into()),
+                Some((kind, msg)) => if k <= n {
+                    if kind == 2 && msg.as_deref() == Some(&format!("injected source failure #{}", k)) { Oracle::Pass }
+                    else if kind == 2 { Oracle::Fail("a-different-source-error".into()) }
+                    else if kind == 1 { Oracle::Fail("source-failure-reported-as-content-error".into()) }
+                    else { Oracle::Fail("source-failure-swallowed".into()) }
+                } else if kind == clean { Oracle::Pass } else { Oracle::Fail("fault-beyond-last-request-changes-outcome".into()) },
+            };
+            (Ints::new().n(1), orc, true)
+        });
+    }
+}
+
 pub fn run08(em: &mut Emitter, rng: &mut Rng, thorough: bool) {
+    // ---- 802: typed value readers ----
+    for _ in 0..(if thorough { 6_000 } else { 400 }) {
+        let which = rng.below(14) as u8;
+        let mode = rng.below(3) as u8;
+        let tag: u8 = match which { 0 | 11 | 12 | 13 => 0x04, 1 | 9 => 0x03, 2 => 0x0c, 3 => 0x13, 4 => 0x16, 5 => 0x12, 6 | 10 => 0x06, _ => 0x02 };
+        let n = match rng.below(6) { 0 => 0, 1 => 1, 2 => rng.range(2, 6) as usize, 3 => rng.range(6, 40) as usize, 4 => 1000, _ => rng.range(1001, 2100) as usize };
+        let content: Vec<u8> = (0..n).map(|i| match tag { 0x12 => b'0' + (i % 10) as u8, 0x03 if i == 0 => 0, 0x06 | 0x02 => 0x2a, _ => b'a' + (i % 26) as u8 }).collect();
+        // the encoding the mode asks for: primitive, or (CER, more than 1000 octets of a string) 1000-octet segments
+        let stringy = matches!(tag, 0x04 | 0x0c | 0x13 | 0x16 | 0x12);
+        let data: Vec<u8> = if mode == 1 && stringy && content.len() > 1000 {
+            let o = Os::Cons(true, content.chunks(1000).map(|c| Os::Prim(c.to_vec())).collect()); let mut t = Vec::new(); crate::c16::os_encode(&o, tag, &mut t); t
+        } else if mode == 0 && stringy && rng.bool() {
+            let o = segment(rng, &content, 2); let mut t = Vec::new(); os_encode_forms(&o, tag, &mut t, rng); if let Os::Prim(_) = o { } t
+        } else { let mut t = vec![tag]; t.extend(ref_len_octets(content.len())); t.extend(&content); t };
+        let policy = match rng.below(3) { 0 => Policy::All, 1 => Policy::Exact, _ => Policy::Chunk(rng.range(1, 700) as usize) };
+        typed_reader_faults(em, which, mode, &data, policy);
+    }
+
     let ctxs = [Ctx::Top, Ctx::Definite, Ctx::Indefinite];
     for _ in 0..(if thorough { 32_000 } else { 1_200 }) {
         let mode = rng.below(3) as u8;
